@@ -2,6 +2,8 @@
 package main
 
 import (
+	"fmt"
+	"os"
 	"encoding/json"
 	"math/rand"
 	"time"
@@ -135,4 +137,13 @@ func gen(rng *rand.Rand) json.RawMessage {
 	return b
 }
 
-func main() { conc.Main("SyncList", factory, gen) }
+func main() {
+	if len(os.Args) > 3 && os.Args[1] == "long" && os.Args[2] == "-out" {
+		pairs := uint64(1)<<32 + 5
+		if len(os.Args) > 5 && os.Args[4] == "-pairs" {
+			fmt.Sscan(os.Args[5], &pairs)
+		}
+		os.Exit(long(os.Args[3], pairs))
+	}
+	conc.Main("SyncList", factory, gen)
+}
